@@ -409,6 +409,12 @@ class SB:
     def __init__(self, e):
         self.e = e
 
+    def __deepcopy__(self, memo):
+        return self
+
+    def __copy__(self):
+        return self
+
     def __bool__(self):
         return ctx().branch(self.e)
 
@@ -528,6 +534,12 @@ class SR:
     @property
     def is_conc(self):
         return isinstance(self.v, F)
+
+    def __deepcopy__(self, memo):      # immutable value: copies keep the identical term
+        return self
+
+    def __copy__(self):
+        return self
 
     # -- arithmetic
     def _bin(self, o, op):
@@ -757,7 +769,10 @@ class SR:
     def __ne__(self, o):
         return self._cmp(o, "ne")
 
-    __hash__ = None
+    def __hash__(self):
+        # one bucket for all reals: dictionaries/sets then decide membership by `==`, which forks when two
+        # keys may or may not be equal (sound; a per-term hash would silently treat possibly-equal keys as distinct)
+        return 0x5EED
 
     # -- conversions
     def __float__(self):
